@@ -26,7 +26,8 @@ ASSUMPTIONS = [
     'reference integrator vf/simshim.py for PKPD models']
 REQUIRED = ['mech:analytic', 'mech:pkpd', 'pop', 'nopop', 'cov', 'doses', 'fixed', 'ids:int', 'ids:str', 'ids:npint',
             'custom_keys', 'explicit_map', 'nan_values', 'nan_times', 'unrelated', 'multi_output',
-            'explicit_map:other_order', 'dose_row_with_measurement', 'pop_model_replaced']
+            'explicit_map:other_order', 'dose_row_with_measurement', 'pop_model_replaced',
+            'controller_reused']
 OBS_TIMES_POOL = 6
 
 
@@ -176,6 +177,8 @@ def classify(spec):
         labs.append('multi_output')
     if replaced_pop(spec):
         labs.append('pop_model_replaced')
+    if reused_controller(spec):
+        labs.append('controller_reused')
     if any(i.get('merge') for i in spec['indiv']):
         labs.append('dose_row_with_measurement')
     return labs
@@ -355,6 +358,22 @@ def build_controller(spec, df, K):
         kw['dose_duration_key'] = None if spec['deco']['no_dur_col'] else K['dur']
     if pm is not None and spec['deco']['pop_first']:
         ctrl.set_population_model(pm)
+    if reused_controller(spec):
+        # the controller was used before with another dataset of the same individuals that contained dose rows;
+        # the dataset of the spec has no dosing information at all (no dose columns)
+        import pints
+        import pandas as pd
+        first = df.iloc[0]
+        extra = {K['id']: first[K['id']], K['time']: 0.1, K['obs']: np.nan, K['value']: np.nan, K['dose']: 3.0}
+        if K['dur'] in df.columns:
+            extra[K['dur']] = 0.5
+        decoy_df = pd.concat([df, pd.DataFrame([extra])], ignore_index=True)
+        ctrl.set_data(decoy_df, **kw)
+        ctrl.set_log_prior(pints.ComposedLogPrior(*[pints.GaussianLogPrior(1.0, 10.0)
+                                                    for _ in range(ctrl.get_n_parameters())]))
+        ctrl.get_log_posterior()
+        df = df.drop(columns=[c for c in (K['dose'], K['dur']) if c in df.columns])
+        kw = dict(kw, dose_key=None, dose_duration_key=None)
     ctrl.set_data(df, **kw)
     if pm is not None and replaced_pop(spec):
         # another population model was tried first on the same data (its covariates are the same observables in
@@ -393,6 +412,11 @@ def _cov_parts(m):
             out += _cov_parts(q)
         return out
     return []
+
+
+def reused_controller(spec):
+    return spec['mech']['kind'] == 'pkpd' and spec['pop'] is None and spec['deco']['order_seed'] % 3 != 0 and \
+        all(not i['doses'] for i in spec['indiv'])
 
 
 def replaced_pop(spec):
@@ -565,6 +589,10 @@ def check(case):
     if s['mech']['kind'] == 'pkpd':
         with case.clause('dosing_regimens'):
             regs = ctrl.get_dosing_regimens()
+            if reused_controller(s):
+                # the dataset in use has no dosing information: nothing of the earlier dataset is reported
+                case.true(not regs, 'get_dosing_regimens() reports %r for a dataset without dose columns' % (regs,))
+                regs = {i: type('P', (), {'events': lambda self: []})() for i in ids}
             case.equal(sorted(regs.keys()), sorted(ids), 'keys of get_dosing_regimens()')
             for i in range(n_ids):
                 got = sorted((e.start(), e.duration(), e.level()) for e in regs[ids[i]].events())
